@@ -133,7 +133,7 @@ class Run:
                 if not getattr(eng, "model_free", False):
                     models[eng.exe] = C.build_model(eng.exe)
         for eng in engines:
-            corpus = eng.corpus()
+            corpus = list(eng.corpus()) + list(getattr(eng, "_extra_corpus", []))
             n = eng.n_cases(self.tier)
             cases = list(corpus)
             for i in range(n):
@@ -243,6 +243,14 @@ def standard(prop, tier, seed, engines, assumptions, known_witnesses=None, extra
     r.assumptions = assumptions
     r.static_gate()
     proof_ok = r.proof_gate()
+    # witnesses of findings that are no longer listed as known (i.e. fixed) stay in the corpus as
+    # regression cases: a fixed entry suppresses nothing
+    known_ids = {k["id"] for k in r.known}
+    for fid, w in (known_witnesses or {}).items():
+        if fid not in known_ids:
+            w[0]._extra_corpus = getattr(w[0], "_extra_corpus", [])
+            if w[1] not in w[0]._extra_corpus:
+                w[0]._extra_corpus.append(w[1])
     mism = r.d1(engines)
     if mism is None:
         return r.finish()
